@@ -306,6 +306,18 @@ func RunC01(env *Env, rep *Report) {
 		cases = append(cases, c01PairCase(pr[0], pr[1], fmt.Sprintf("c01/pair/%s || %s", ShString(pr[0]), ShString(pr[1]))))
 	}
 	rep.Bounds["two_script_programs"] = len(pairs)
+	// files mixing script statements with inline map scripts (entries and
+	// table rows), and the dead-code label shapes
+	mixed := mixedFiles(pairNodes)
+	for _, mf := range mixed {
+		cases = append(cases, mixedC01Case(mf))
+	}
+	rep.Bounds["mixed_files_with_inline_map_scripts"] = len(mixed)
+	for _, sh := range c04DeadCodeShapes() {
+		for _, e := range expandGotos(sh) {
+			cases = append(cases, c01Case(e, "c01/deadcode/"+ShString(e)))
+		}
+	}
 	if len(cases) > 0 {
 		src, _ := cases[len(cases)/2].Prog.Render()
 		rep.AddSample(map[string]interface{}{"skeleton": cases[len(cases)/2].Shape, "source_with_holes": src})
